@@ -294,13 +294,89 @@ func join(l []string) string {
 // followPages follows continuation tokens with the given limit; returns the concatenation of the pages,
 // the tokens seen and whether the page cap was hit.
 func (g *gen) followPages(sortk, cons string, limit, nfull int) (cat []string, toks []string, capped bool, errd bool) {
+	return g.followPagesOp("q", sortk, cons, limit, nfull)
+}
+
+// doReused executes a qr/arr op; a "caller-state-mutated" answer is an oracle failure of its own.
+func (g *gen) doReused(line string) qres {
+	out := g.do(line)
+	if strings.HasPrefix(out, "caller-state-mutated ") {
+		g.r.Fail("caller-query-state-mutated", "Handler.Query changed the *SearchQuery / *Constraint value owned by its caller: "+line,
+			"the caller's value unchanged (JSON and exported fields)", "changed", g.r.CaseOps())
+		out = strings.TrimPrefix(out, "caller-state-mutated ")
+	}
+	return parseQ(out)
+}
+
+// reusedRun: a caller that builds its query ONCE per (sort, constraint) and only changes Limit / Continue /
+// Around: a paging run, a restart from page 1 with another page size, an Around request and an unpaged
+// request, all with the same Go values – every answer must be the one fresh values get.
+func (g *gen) reusedRun(ws *wspec, sortk, cons string, limit int, full []string) {
+	r := g.r
+	check := func(what string, got, want []string) {
+		if join(got) != join(want) {
+			r.Fail("reused-query-objects-results-differ", fmt.Sprintf("sort=%s cons=%s limit=%d: %s with the caller's long-lived query value differs from the same request with fresh values", sortk, cons, limit, what),
+				join(want), join(got), r.CaseOps())
+		}
+	}
+	pages := func(limit int) ([]string, bool) {
+		var cat []string
+		tok := ""
+		for page := 0; page < len(full)/limit+3; page++ {
+			out := g.doReused(fmt.Sprintf("qr %s %s %d %s", sortk, cons, limit, hk.Hex([]byte(tok))))
+			if !out.ok {
+				return cat, false
+			}
+			cat = append(cat, out.idx...)
+			if out.cont == "" {
+				return cat, true
+			}
+			tok = out.cont
+		}
+		return cat, false
+	}
+	freshCat, _, capped, errd := g.followPages(sortk, cons, limit, len(full))
+	if capped || errd {
+		return // already reported by the fresh run of the same request
+	}
+	cat, ok := pages(limit)
+	r.Hit("reuse:paging-run")
+	if !ok {
+		check("paging run (did not end)", cat, freshCat)
+	} else {
+		check("paging run", cat, freshCat)
+	}
+	other := limit%3 + 1
+	freshCat2, _, capped2, errd2 := g.followPages(sortk, cons, other, len(full))
+	cat2, _ := pages(other)
+	r.Hit("reuse:restart-from-page-1")
+	if !capped2 && !errd2 {
+		check(fmt.Sprintf("restart from page 1 with limit %d", other), cat2, freshCat2)
+	}
+	if len(full) > 0 {
+		i, _ := strconv.Atoi(full[g.r.R.Intn(len(full))])
+		pv := hk.Hex([]byte(ws.pns[i].ref.String()))
+		fresh := parseQ(g.do(fmt.Sprintf("ar %s %s %d %s", sortk, cons, limit, pv)))
+		got := g.doReused(fmt.Sprintf("arr %s %s %d %s", sortk, cons, limit, pv))
+		r.Hit("reuse:around-same-object")
+		check("Around", got.idx, fresh.idx)
+	}
+	un := g.doReused(fmt.Sprintf("qr %s %s -1 -", sortk, cons))
+	r.Hit("reuse:unpaged-after-paging")
+	check("unpaged Limit -1 request", un.idx, full)
+	if un.cont != "" {
+		check("unpaged Limit -1 request (token)", []string{un.cont}, nil)
+	}
+}
+
+func (g *gen) followPagesOp(op, sortk, cons string, limit, nfull int) (cat []string, toks []string, capped bool, errd bool) {
 	tok := ""
 	maxPages := nfull/limit + 3
 	for page := 0; ; page++ {
 		if page == maxPages {
 			return cat, toks, true, false
 		}
-		out := parseQ(g.do(fmt.Sprintf("q %s %s %d %s", sortk, cons, limit, hk.Hex([]byte(tok)))))
+		out := parseQ(g.do(fmt.Sprintf("%s %s %s %d %s", op, sortk, cons, limit, hk.Hex([]byte(tok)))))
 		if !out.ok {
 			return cat, toks, false, true
 		}
@@ -454,7 +530,11 @@ func (g *gen) runWorld(kind string, n int, limits []int, aroundLimits []int) {
 					detail := fmt.Sprintf("sort=%s cons=%s limit=%d: pages concatenated differ from the full list (capped=%v)", sortk, cons, limit, capped)
 					r.Fail(sigf, detail, join(full), join(cat), r.CaseOps())
 				}
-				if cons != "all" && cons != "a" {
+				// the same requests from a caller that reuses its Go query values (a fraction of the runs)
+				if rnd.Chance(35) {
+					g.reusedRun(ws, sortk, cons, limits[rnd.Intn(len(limits))], full)
+				}
+				if cons != "all" && cons != "a" && cons != "y" {
 					continue
 				}
 				// Around: every pivot of the world, plus a ref that is no permanode of the world
@@ -824,7 +904,7 @@ func mix64(z uint64) uint64 {
 // Run is the generator + oracle of C09.
 func Run(r *hk.Run) {
 	g := &gen{r: r, ex: nil}
-	r.Res.Rule = "one case = one world (real index+corpus) of n planned permanodes whose dateCreated / claim dates are drawn from a small pool of instants (kinds: one, modern, subsec, pre1970, epoch, edge64in, mixed; and outside int64 nanoseconds: edge64out, far); per world, sort (created/lastmod) and constraint (all/tag a/tag b): the limit-free query is the oracle list, every limit is followed page by page, every permanode (and one foreign ref) is used as Around pivot; constraints: Permanode{}, tag=a, tag=b, CamliType:permanode, and(tag a, tag b), camliNodeType=foo, and(camliNodeType=foo, tag a), and(Permanode{}, BlobRefPrefix one-digit / full ref) – every branch of pickCandidateSource an only-permanode constraint can reach; about half of the permanodes get a camliContent file carrying a time, whose schema blob reaches the index before the first query or LATE (after the claim and after a full round of queries), followed by another round; then permanodes are added and a last round runs; the same Around pivots and limits on the sorts with an unsorted candidate source (BlobRefAsc always, CreatedAsc in worlds with pairwise distinct creation times). distinct = distinct (kind of query, sort, constraint, limit, tie/sign shape of the ordered list[, pivot position]); non-trivial = the full list is longer than the limit (at least two pages / a truncated window)"
+	r.Res.Rule = "one case = one world (real index+corpus) of n planned permanodes whose dateCreated / claim dates are drawn from a small pool of instants (kinds: one, modern, subsec, pre1970, epoch, edge64in, mixed; and outside int64 nanoseconds: edge64out, far); per world, sort (created/lastmod) and constraint (all/tag a/tag b): the limit-free query is the oracle list, every limit is followed page by page, every permanode (and one foreign ref) is used as Around pivot; constraints: Permanode{}, tag=a, tag=b, CamliType:permanode, and(tag a, tag b), camliNodeType=foo, and(camliNodeType=foo, tag a), and(Permanode{}, BlobRefPrefix one-digit / full ref) – every branch of pickCandidateSource an only-permanode constraint can reach; about half of the permanodes get a camliContent file carrying a time, whose schema blob reaches the index before the first query or LATE (after the claim and after a full round of queries), followed by another round; then permanodes are added and a last round runs; in about a third of the (sort, constraint) runs the requests are repeated by a caller that keeps ONE Go *SearchQuery/*Constraint value (paging run, restart from page 1 with another limit, Around, unpaged) – the value must come back unchanged and the answers must equal those of fresh values; the same Around pivots and limits on the sorts with an unsorted candidate source (BlobRefAsc always, CreatedAsc in worlds with pairwise distinct creation times). distinct = distinct (kind of query, sort, constraint, limit, tie/sign shape of the ordered list[, pivot position]); non-trivial = the full list is longer than the limit (at least two pages / a truncated window)"
 	// hk.NewRand(seed) makes consecutive seeds offsets (by one draw) of the same stream, and a generator
 	// with data-dependent draw counts re-synchronises them: decorrelate the seeds first
 	r.R = hk.NewRand(mix64(r.Res.Seed))
